@@ -230,4 +230,9 @@ def run(rep, db, tier, seed):
         c14_reusable.run(rep, db, tier)
     except Exception as u:
         rep.add(Obligation('ReusableStream::run', 'inconclusive', f'{type(u).__name__}: {u}'[:600]))
+    try:
+        from props import c15_server
+        c15_server.run(rep, db, tier)
+    except Exception as u:
+        rep.add(Obligation('RPC server loop', 'inconclusive', f'{type(u).__name__}: {u}'[:600]))
     rep.extra['explanation'] = 'inductive step lemmas of the token bucket on the real MIR (advance, drop, acquire coroutine) for all symbolic states; window bound by telescoping (assumption) and by a bounded Kani run (thorough)'
